@@ -3,7 +3,9 @@
    the independent PEP 3333 / ASGI monitors:
      [c: the case (see ResponseEmit), ev: the server-visible events start/body/eof with the
       projected header values (cl, ct), pieces: the received body as a list of source pieces
-      [src, idx], begun, closes: what the stream double saw, raised / sendFailed: an injected
+      [src, idx] (for a file-like read in blocks of the framework's choosing - kind filefull - the
+      segments wholly received), begun, closes: what the stream double saw (closes = close() calls on
+      the very object assigned to resp.stream, not on an iterator derived from it), raised / sendFailed: an injected
       fault really fired, renderFailed: body rendering raised the injected fault (handled by an
       error handler: the response judged is the re-filled one, ResponseEmit!Eff), renderFails:
       how many renderings raised, exc: an exception escaped the application callable, errors: number of
